@@ -879,6 +879,13 @@ func extractIPsFromDnsCache(cache *DnsCache) []netip.Addr {
 // BatchUpdateDomainRouting update bpf map domain_routing. Since one IP may have multiple domains, this function should
 // be invoked every A/AAAA-record lookup.
 func (c *controlPlaneCore) BatchUpdateDomainRouting(cache *DnsCache) error {
+	return c.BatchRefreshDomainRouting(cache, nil)
+}
+
+// BatchRefreshDomainRouting is BatchUpdateDomainRouting for deferred refreshes:
+// stillCurrent (may be nil) is evaluated atomically with the map update and
+// the update is skipped when it reports that cache is no longer published.
+func (c *controlPlaneCore) BatchRefreshDomainRouting(cache *DnsCache, stillCurrent func() bool) error {
 	if c == nil || cache == nil {
 		return nil
 	}
@@ -893,7 +900,7 @@ func (c *controlPlaneCore) BatchUpdateDomainRouting(cache *DnsCache) error {
 	if bpf == nil {
 		return nil
 	}
-	return c.domainRouting.syncOwner(bpf.DomainRoutingMap, cache.RouteOwnerKey, snapshot)
+	return c.domainRouting.syncOwnerIf(bpf.DomainRoutingMap, cache.RouteOwnerKey, snapshot, stillCurrent)
 }
 
 // BatchRemoveDomainRouting remove bpf map domain_routing.
